@@ -349,8 +349,11 @@ def thread_pairs(tier):
     n1 = b("1059", {"DF387": 2, "DF379_01": 1, "DF379_02": 2})
     n2 = b("1065", {"DF387": 1, "DF379_01": 2})
     bad = p1006[:12]
+    h1 = b("4076_201", {"IDF035": 0, "IDF037": 2, "IDF038": 1})
+    h2 = b("4076_201", {"IDF035": 0, "IDF037": 4, "IDF038": 1})
     out = [
         ("1005|1006", p1005, p1006),
+        ("4076_201(3,2)|4076_201(5,2)", h1, h2),
         ("1005|1005", p1005, p1005),
         ("trunc1006|1005", bad, p1005),
         ("1071|1121", m1, m2),
